@@ -173,6 +173,9 @@ func cmdCheck(args []string) int {
 		cfg.Extra(r)
 	}
 	e.SweepConcurrency(cfg.ID)
+	if cfg.ID == "C14" {
+		e.SweepGlobals("C14", []string{modulePath + "/runtime", modulePath})
+	}
 	tGen := time.Since(r.t0).Seconds()
 	e.Discharge(tier, filepath.Join(r.workdir, "smt"))
 	r.extraCov["vc_generation_s"] = round2(tGen)
@@ -405,11 +408,11 @@ func (r *Run) report(updateLock, verbose, noEvidence bool) int {
 		// callees without contract or model. "pure": value-level library functions taken to be functions of their
 		// arguments that change nothing; "impure": every other such callee - each call returns new unknowns and whatever
 		// it can reach through its receiver and arguments is forgotten
-		"havocked_calls":            sortedKeys(e.havocked),
-		"havocked_calls_impure":     sortedKeys(e.havockedImpure),
-		"notes":                     e.notes,
-		"samples":                   r.samples(),
-		"known_findings_hit":        knownHit,
+		"havocked_calls":        sortedKeys(e.havocked),
+		"havocked_calls_impure": sortedKeys(e.havockedImpure),
+		"notes":                 e.notes,
+		"samples":               r.samples(),
+		"known_findings_hit":    knownHit,
 	}
 	for k, v := range r.extraCov {
 		cov[k] = v
